@@ -210,7 +210,9 @@ fn judge(c: &EncCase, model_ans: Option<&str>, file: &Result<Vec<u8>, String>) -
 
 fn gen(rng: &mut Rng, big: bool) -> EncCase {
     let (color, depth) = *rng.pick(&LEGAL_PAIRS);
-    let w = match rng.below(5) {
+    let w = match rng.below(6) {
+        // rows of several KiB (heuristics and buffers that only matter beyond 1 KiB / 4 KiB of row data)
+        5 => *rng.pick(&[1025u64, 1500, 2049, 4097]) / (if depth == 16 { 2 } else { 1 }).max(1) + rng.below(3),
         0 => rng.range(1, 9),
         1 => *rng.pick(&[31u64, 32, 33, 34, 63, 64, 65, 66, 127, 128, 129, 130]),
         _ => rng.range(1, if big { 600 } else { 60 }),
